@@ -950,7 +950,8 @@ class Object(ObjectAliasMixin):
             return self.members[name].path
 
         # Name unknown and no more parent scope, could be a built-in.
-        if self.parent is None:
+        # A module is the outermost scope: its parent package is not an enclosing scope.
+        if self.parent is None or self.is_module:
             raise NameResolutionError(f"{name} could not be resolved in the scope of {self.path}")
 
         # Name is parent, non-module object.
